@@ -223,8 +223,13 @@ def job_shape(analysis: Analysis, res: RuleResult) -> None:
             if isinstance(recv, ast.Attribute) and recv.attr == "queue":
                 n += 1
                 arg = node.args[0] if node.args else None
-                ok = node.func.attr == "append" and isinstance(arg, ast.Tuple) and len(arg.elts) == 2
                 fn = common.func_of_node(analysis, mod, node)
+                if isinstance(arg, ast.Name) and fn in analysis.p.funcs:
+                    # a local bound once to the pair: `job = func, args`
+                    binds = [a.value for a in ast.walk(analysis.p.funcs[fn].node) if isinstance(a, ast.Assign) and len(a.targets) == 1 and isinstance(a.targets[0], ast.Name) and a.targets[0].id == arg.id]
+                    if len(binds) == 1:
+                        arg = binds[0]
+                ok = node.func.attr == "append" and isinstance(arg, ast.Tuple) and len(arg.elts) == 2
                 res.add("C01-INV", f"{fn} / {unparse(node)[:60]}", ok, common.where(analysis, mod, node), "job queue producer appends a (func, args) pair" if ok else "job queue producer does not append a 2-tuple; run_job unpacks `func, args = job`")
     if n < 1:
         raise AnalysisError("C01-INV: no producer of Tasks.queue found")
